@@ -98,8 +98,15 @@ func Changes(cmd CommandRunner, baseBranch string, filter PathFilter) ([]*FileCh
 		slog.Debug("Git file change", slog.String("change", parts[0]), slog.String("path", dstPath), slog.String("commit", commit))
 
 		if !filter.IsPathAllowed(dstPath) {
-			slog.Debug("Skipping file due to include/exclude rules", slog.String("path", dstPath))
-			continue
+			if status != FileRenamed || !filter.IsPathAllowed(srcPath) {
+				slog.Debug("Skipping file due to include/exclude rules", slog.String("path", dstPath))
+				continue
+			}
+			// A file we do check was moved to a path that we don't check.
+			// From our point of view that's the same as removing it.
+			slog.Debug("File was moved to a path excluded by include/exclude rules", slog.String("src", srcPath), slog.String("dst", dstPath))
+			status = FileDeleted
+			dstPath = srcPath
 		}
 
 		// This should never really happen since git doesn't track directories, only files.
